@@ -3,6 +3,7 @@ CONSTANTS NConns = 3
   MaxTempErrs = 2
   Recover = FALSE
   RetryTemp = TRUE
+  SequencedBad = TRUE
 INIT Init
 NEXT Next
 INVARIANTS HealthyServed
